@@ -212,6 +212,8 @@ func MakeHdr(kind string, sid uint8, idx int) *astits.PESHeader {
 		h.OptionalHeader = &astits.PESOptionalHeader{MarkerBits: 2, PTSDTSIndicator: astits.PTSDTSIndicatorOnlyPTS, PTS: cr(int64(idx)*3600+90000, 0)}
 	case "ptsdts":
 		h.OptionalHeader = &astits.PESOptionalHeader{MarkerBits: 2, PTSDTSIndicator: astits.PTSDTSIndicatorBothPresent, PTS: cr(int64(idx)*3600+90000, 0), DTS: cr(int64(idx)*3600+86400, 0), DataAlignmentIndicator: true}
+	case "ptseqdts": // both present with the same value (audio, video without reordering)
+		h.OptionalHeader = &astits.PESOptionalHeader{MarkerBits: 2, PTSDTSIndicator: astits.PTSDTSIndicatorBothPresent, PTS: cr(int64(idx)*3600+90000, 0), DTS: cr(int64(idx)*3600+90000, 0)}
 	case "none":
 		h.OptionalHeader = &astits.PESOptionalHeader{MarkerBits: 2}
 	case "full":
